@@ -693,6 +693,7 @@ pub fn op_sha256(
 // sizes use the raw atom length (buf.len() / len_for_value) to account for
 // possible leading-zero padding in CLVM-serialized atoms.
 pub fn op_add(a: &mut Allocator, mut input: NodePtr, max_cost: Cost, flags: ClvmFlags) -> Response {
+    #[cfg_attr(feature = "verif-hooks", allow(unused_imports))]
     use rand::Rng;
 
     let new_cost_model = flags.contains(ClvmFlags::NEW_COST_MODEL);
@@ -744,6 +745,11 @@ pub fn op_add(a: &mut Allocator, mut input: NodePtr, max_cost: Cost, flags: Clvm
 
     // Slow path: fall back to bignum arithmetic
     let mut rng = rand::rng();
+    #[cfg(feature = "verif-hooks")]
+    let mut rng = {
+        let _ = &mut rng;
+        crate::verif::ScriptedRng::new()
+    };
     // acc is not used for the new cost model
     let mut acc = [Number::from(0), Number::from(0)];
     let mut small_acc: Number = 0.into();
@@ -802,6 +808,7 @@ pub fn op_subtract(
     flags: ClvmFlags,
 ) -> Response {
     use crate::number::number_from_u8;
+    #[cfg_attr(feature = "verif-hooks", allow(unused_imports))]
     use rand::Rng;
 
     let new_cost_model = flags.contains(ClvmFlags::NEW_COST_MODEL);
@@ -859,6 +866,11 @@ pub fn op_subtract(
 
     // Slow path: fall back to bignum arithmetic
     let mut rng = rand::rng();
+    #[cfg(feature = "verif-hooks")]
+    let mut rng = {
+        let _ = &mut rng;
+        crate::verif::ScriptedRng::new()
+    };
     let mut acc = [Number::from(0), Number::from(0)];
     let mut small_acc: Number = 0.into();
     let mut is_first = true;
